@@ -7,6 +7,8 @@ open PdModel.Builder PdModel.Spec
 #print axioms buildWith_joint_safe
 #print axioms recorded_of_calls
 #print axioms build_leave_joint_safe
+#print axioms build_single_change_safe
+#print axioms buildWith_single_change_safe
 #print axioms joint_core_safe
 #print axioms builder_structure_as_modelled
 #print axioms build_nojoint_counterexample_occupied
